@@ -129,6 +129,19 @@ Do(s) ==
     [] s.op = "IterateKeys" ->
          IF closed THEN Fail(s, [err |-> "ErrStoreClosed", keys |-> <<>>])
          ELSE Fail(s, [err |-> "ok", keys |-> KeysOf(Take(Listing(store, R(s), s.k, s.dir), s.n))])
+    [] s.op = "IterMut" ->             \* Iterate(prefix k) of view v whose consumer, at its FIRST entry, writes through view mv:
+         \* Set(mk, val) or Delete(mk). The iteration delivers the entries the map held when the call began (a snapshot:
+         \* what the consumer does to the store meanwhile neither adds, drops nor changes a delivered entry), the nested write
+         \* takes effect like any other write.
+         IF closed THEN Fail(s, [err |-> "ErrStoreClosed", kv |-> <<>>, inner |-> "none"])
+         ELSE LET L   == Listing(store, R(s), s.k, s.dir)
+                  fk  == RealmOf[s.mv] \o s.mk
+                  new == IF s.del THEN Del(store, fk) ELSE Put(store, fk, s.val)
+              IN  IF L = <<>> THEN Fail(s, [err |-> "ok", kv |-> <<>>, inner |-> "none"])
+                  ELSE /\ Cardinality(DOMAIN new) <= MaxLive
+                       /\ UNCHANGED <<cfg, closed, batches>>
+                       /\ store' = new
+                       /\ Out(s, [err |-> "ok", kv |-> L, inner |-> "ok"])
     [] s.op = "Realm" -> Fail(s, [err |-> "ok", realm |-> R(s)])
     [] s.op = "WithRealm" ->           \* a new handle for view s.to, made from view s.v
          IF closed THEN Fail(s, [err |-> "ErrStoreClosed", realm |-> <<>>])
@@ -177,6 +190,8 @@ AllStimuli ==
   \cup [op : {"Set"}, v : RealmIds, k : Keys, val : Vals, mut : Muts]
   \cup [op : {"Clear", "Flush", "Close", "Realm", "Batched"}, v : RealmIds]
   \cup [op : {"Iterate", "IterateKeys"}, v : RealmIds, k : Keys, dir : {"fwd", "bwd"}, n : Stops]
+  \cup [op : {"IterMut"}, v : RealmIds, k : Keys, dir : {"fwd", "bwd"}, mv : RealmIds, mk : Keys, del : {TRUE}, val : {<<>>}]
+  \cup [op : {"IterMut"}, v : RealmIds, k : Keys, dir : {"fwd", "bwd"}, mv : RealmIds, mk : Keys, del : {FALSE}, val : {AllVals[NVals]}]
   \cup [op : {"WithRealm", "WithExtendedRealm"}, v : RealmIds, to : RealmIds]
   \cup [op : {"BSet"}, b : 1..MaxBatches, k : Keys, val : Vals]
   \cup [op : {"BDelete"}, b : 1..MaxBatches, k : Keys]
@@ -197,7 +212,7 @@ View == LET L == Listing(store, <<>>, <<>>, "fwd") IN
                                          <<batches[i].ops[j].k, batches[i].ops[j].del, batches[i].ops[j].val>>]>>] >>
 
 (* ---------------------------------------------------------------- the property --------- *)
-ListedOps == {"Get", "Has", "Set", "Delete", "DeletePrefix", "Clear", "Flush", "Iterate", "IterateKeys",
+ListedOps == {"Get", "Has", "Set", "Delete", "DeletePrefix", "Clear", "Flush", "Iterate", "IterateKeys", "IterMut",
               "WithRealm", "WithExtendedRealm", "Batched", "Commit"}
 ReadOps   == {"Get", "Has", "Flush", "Iterate", "IterateKeys", "Realm", "WithRealm", "WithExtendedRealm",
               "Batched", "BSet", "BDelete", "Cancel"}
@@ -243,10 +258,10 @@ StOK == (~closed /\ ev.op # "reset") =>
 
 Changed(fk) == (fk \in DOMAIN store) # (fk \in DOMAIN store') \/ (fk \in DOMAIN store /\ store[fk] # store'[fk])
 Touched     == {fk \in DOMAIN store \cup DOMAIN store' : Changed(fk)}
-RealmOfEv   == IF ev'.op \in {"Commit"} THEN RealmOf[batches[ev'.b].v] ELSE RealmOf[ev'.v]
+RealmOfEv   == IF ev'.op \in {"Commit"} THEN RealmOf[batches[ev'.b].v] ELSE IF ev'.op = "IterMut" THEN RealmOf[ev'.mv] ELSE RealmOf[ev'.v]
 
 (* realm isolation: a call on view v only changes keys that carry realm(v) *)
-IsolationA == (ev'.op \in {"Set", "Delete", "DeletePrefix", "Clear", "Commit"} /\ ~closed')
+IsolationA == (ev'.op \in {"Set", "Delete", "DeletePrefix", "Clear", "Commit", "IterMut"} /\ ~closed')
                  => \A fk \in Touched : HasPrefix(fk, RealmOfEv)
 (* reads, view/batch creation, batch Set/Delete/Cancel and the aliasing steps change nothing *)
 ReadOnlyA  == (ev'.op \in ReadOps) => store' = store
@@ -255,6 +270,11 @@ DeleteExactA == (ev'.op \in {"DeletePrefix", "Clear"} /\ ~closed) =>
                   LET p == RealmOfEv \o (IF ev'.op = "Clear" THEN <<>> ELSE ev'.k) IN
                   /\ DOMAIN store' = {fk \in DOMAIN store : ~HasPrefix(fk, p)}
                   /\ \A fk \in DOMAIN store' : store'[fk] = store[fk]
+\* an iteration whose consumer writes: the delivered entries are those of the map BEFORE the call, the only key touched is the consumer's
+IterMutA == (ev'.op = "IterMut" /\ ~closed) =>
+              /\ ev'.res.kv = Listing(store, RealmOf[ev'.v], ev'.k, ev'.dir)
+              /\ Touched \subseteq {RealmOfEv \o ev'.mk}
+              /\ (ev'.res.kv = <<>>) = (ev'.res.inner = "none")
 SetDeleteA == /\ (ev'.op = "Set" /\ ~closed) => Touched \subseteq {RealmOfEv \o ev'.k}
               /\ (ev'.op = "Delete" /\ ~closed) => (Touched \subseteq {RealmOfEv \o ev'.k} /\ (RealmOfEv \o ev'.k) \notin DOMAIN store')
 (* Commit = the last operation per key; Cancel = nothing (the cancelled calls never apply) *)
@@ -273,6 +293,7 @@ Isolation    == [][IsolationA]_vars
 ReadOnly     == [][ReadOnlyA]_vars
 DeleteExact  == [][DeleteExactA]_vars
 SetDelete    == [][SetDeleteA]_vars
+IterSnapshot == [][IterMutA]_vars
 BatchLastOp  == [][BatchLastOpA]_vars
 CancelNothing == [][CancelA]_vars
 =======================================================================
